@@ -51,6 +51,24 @@ class CopyPropagator(taps.Monitor):
     def post(self, ctx, st, args, kw, c, exc):
         if exc is None and c is not None:
             align.SHADOW[id(c)] = (c, align.SHADOW[id(args[0])][1])
+            if id(args[0]) in UNRETARGETED_INVERSES:
+                UNRETARGETED_INVERSES.add(id(c))
+
+
+UNRETARGETED_INVERSES = set()     # an inverse is the exact inverse map, not a fit, until it is retargeted
+
+
+class PinvPropagator(taps.Monitor):
+    """The inverse of an alignment is an alignment of the same class and options (source and target exchanged)."""
+    name = "pseudoinverse_propagates_options"
+
+    def pre(self, ctx, args, kw):
+        return {} if id(args[0]) in align.SHADOW else None
+
+    def post(self, ctx, st, args, kw, inv, exc):
+        if exc is None and inv is not None and type(inv) is type(args[0]):
+            align.SHADOW[id(inv)] = (inv, align.SHADOW[id(args[0])][1])
+            UNRETARGETED_INVERSES.add(id(inv))
 
 
 class SetTargetMonitor(taps.Monitor):
@@ -81,6 +99,7 @@ class SetTargetMonitor(taps.Monitor):
         if exc is not None:
             ctx.fail("set_target_raised_on_a_valid_target", cls=cls, mech=type(exc).__name__, error=repr(exc)[:200])
             return
+        UNRETARGETED_INVERSES.discard(id(t))
         if digest(new) != st["d_new"]:
             ctx.fail("set_target_modified_the_callers_target", cls=cls)
         if t.source is not st["src_obj"] or digest(t.source) != st["d_src"]:
@@ -162,6 +181,7 @@ class GPAMonitor(taps.Monitor):
 
 def replay_case_begin():
     align.clear_shadow()
+    UNRETARGETED_INVERSES.clear()
 
 
 def setup(ctx):
@@ -170,6 +190,7 @@ def setup(ctx):
     taps.tap(ctx, taps.mod("menpo.base").Copyable, "copy", CopyPropagator())
     taps.tap(ctx, taps.mod("menpo.transform.homogeneous.base").HomogFamilyAlignment, "copy", CopyPropagator())
     taps.tap(ctx, taps.mod("menpo.base").Targetable, "set_target", SetTargetMonitor())
+    taps.tap_definers(ctx, "pseudoinverse", lambda c: PinvPropagator())
     taps.tap(ctx, taps.mod("menpo.transform.groupalign.procrustes").GeneralizedProcrustesAnalysis, "__init__", GPAMonitor())
 
 
@@ -204,7 +225,7 @@ def new_target(rng, t, kind, src):
 def audit_live(ctx, live, just_retargeted):
     """Every live object (copies included) still is the alignment of its source to its *own* target."""
     for o in live:
-        if o is just_retargeted or id(o) not in align.SHADOW:
+        if o is just_retargeted or id(o) not in align.SHADOW or id(o) in UNRETARGETED_INVERSES:
             continue
         with taps.quiet():
             try:
@@ -227,6 +248,7 @@ def w_history(ctx, rng, i):
     from menpo.transform.piecewiseaffine.base import PythonPWA, CachedPWA
     from menpo.transform.rbf import R2LogR2RBF, R2LogRRBF
     align.clear_shadow()
+    UNRETARGETED_INVERSES.clear()
     kind = KINDS[i % len(KINDS)]
     warp = kind in ("ThinPlateSplines", "PiecewiseAffine", "PythonPWA")
     d = 2 if warp else 2 + (i // len(KINDS)) % 2
@@ -269,6 +291,14 @@ def w_history(ctx, rng, i):
             live.append(who.copy())
             shape.append("copy")
             continue
+        if r < 0.27:
+            # the inverse alignment joins the live objects: it has its own source (the old target) and retargets on its own
+            try:
+                live.append(who.pseudoinverse())
+                shape.append("invert")
+            except Exception:
+                pass
+            continue
         if r < 0.3:
             # wrong sizes are refused and change nothing
             bad = ms.PointCloud(rng.normal(size=(len(src) + 1, d))) if rng.random() < 0.5 else ms.PointCloud(rng.normal(size=(len(src), 5 - d)))
@@ -289,9 +319,9 @@ def w_history(ctx, rng, i):
             continue
         # history: the same point array applied before and after the retarget (whatever the object remembers about
         # its last input must not survive the retarget)
-        P = gen.points_inside_mesh(rng, src, np.asarray(who.source.trilist), 6, margin=0.08) if warp and kind != "ThinPlateSplines" else tx.probe(rng, d, 6)
+        P = gen.points_inside_mesh(rng, who.source.points, np.asarray(who.source.trilist), 6, margin=0.08) if warp and kind != "ThinPlateSplines" else tx.probe(rng, d, 6)
         before = who.apply(P)
-        nt = new_target(rng, who, kind, src)
+        nt = new_target(rng, who, kind, who.source.points.copy())
         who.set_target(nt)
         after = who.apply(P)
         try:
@@ -305,7 +335,7 @@ def w_history(ctx, rng, i):
         audit_live(ctx, live, who)
     # every live object (copies included) still retargets like a fresh one
     for who in live:
-        who.set_target(new_target(rng, who, kind, src))
+        who.set_target(new_target(rng, who, kind, who.source.points.copy()))
         accepted += 1
     ctx.count_case((kind, d, str(sorted(opts.items(), key=str)), tuple(shape)), nontrivial=accepted >= 1,
                    sample={"kind": kind, "dims": d, "options": {k: str(v) for k, v in opts.items()}, "history": shape} if i < 8 else None)
